@@ -497,7 +497,10 @@ func finish(spec *fw.Spec, tier string, seed int64, agg *aggregate, wall, buildS
 		"build_s":             round1(buildS),
 	}
 	if spec.Exhaustive {
-		cov["exhaustive"] = true
+		// the finite catalog part of the case list was enumerated completely (the random cases
+		// that follow it are exploration, so "exhaustive" is not claimed for the run as a whole)
+		cov["finite_catalog_enumerated_completely"] = true
+		cov["exhaustive"] = false
 	}
 	if agg.samples == nil {
 		cov["samples"] = []interface{}{}
